@@ -25,7 +25,9 @@ def gen_cfg(rng, restartable=True):
         "kinds": kinds,
         "tabled": {k: rng.random() < 0.6 for k in KINDS},
         "pair": rng.random() < 0.5,
-        "xlabels": {k: (["_x_%s_%d" % (k, i) for i in range(rng.randint(1, 3))] if rng.random() < 0.3 else []) for k in XKINDS},
+        # (column names in no particular alphabetical order: file order, not sorted order, is what a round trip has to keep)
+        "xlabels": {k: ([n_ % k for n_ in rng.sample(["_x_%s_order", "_x_%s_dist", "_x_%s_ff10", "_x_%s_ff2", "_x_%s_0", "_x_%s_Zeta"], rng.randint(1, 3))]
+                        if rng.random() < 0.3 else []) for k in XKINDS},
         "cell_family": rng.choice(["ortho", "ortho", "tri_pos", "tri_neg", "tri_mixed", "cubic", "tri_rotated", "ortho_rotated", "tri_big"] if not restartable else
                                   ["ortho", "ortho", "tri_pos", "tri_neg", "tri_mixed", "cubic", "tri_big", "tri_tiny"]),
         "table_container": rng.choice(["list", "ndarray", "tuple"]),
@@ -88,6 +90,8 @@ def gen_fragment(rng, cfg, name, natoms=None, cell=None, idiom=None, elements=No
         types = [rng.randrange(ntypes) for _ in range(n)]
         # every type in use at least once is NOT required (a subset keeps all tables); sometimes force an unused one
         t_lab = ["%s_%s%d" % (e, name, i) for i, e in enumerate(t_el)] if rng.random() < 0.8 else list(t_el)
+        if ntypes >= 2 and rng.random() < 0.04:
+            t_lab[rng.randrange(ntypes)] = ""       # labels are free text: an empty one is unusual, not illegal
         from mofun.atomic_masses import ATOMIC_MASSES
         t_mass = [round(ATOMIC_MASSES[e] + (0.0005 * i if rng.random() < 0.5 else 0.0), 4) for i, e in enumerate(t_el)]
     else:
@@ -667,6 +671,22 @@ def shrink_history(spec):
             s = copy.deepcopy(spec)
             s["objects"][i]["container"] = "list"
             yield s
+
+
+def gen_long_chain(rng, cfg, natoms, cell=None):
+    """A chain of `natoms` atoms with a bond between neighbours (and, if the world has them, an angle on every triple): more
+    than a thousand terms of one kind in one object - counts that small structures never reach."""
+    o = gen_fragment(rng, cfg, "chain", natoms=natoms, cell=cell, idiom="explicit")
+    for k in KINDS:
+        o[PLURAL[k]], o["%s_types" % k], o["%s_type_coeffs" % k] = [], [], []
+        o["extra_%s_labels" % k], o["extra_%s_fields" % k] = [], []
+    kinds = [("bond", 2)] + ([("angle", 3)] if "angle" in cfg["kinds"] else [])
+    for k, ar in kinds:
+        o[PLURAL[k]] = [list(range(i, i + ar)) if rng.random() < 0.7 else list(range(i, i + ar))[::-1] for i in range(natoms - ar + 1)]
+        nt = 2
+        o["%s_types" % k] = [i % nt for i in range(len(o[PLURAL[k]]))]
+        o["%s_type_coeffs" % k] = [gen_coeff(rng, "ch%s%d" % (k[0], i)) for i in range(nt)] if cfg["tabled"][k] else []
+    return o
 
 
 def gen_world(rng, nobj=(2, 4), nops=(0, 5), weights=None, restartable=True, cell_prob=0.85, max_atoms=10, empty_prob=0.05, overlay=0.0):
